@@ -43,6 +43,11 @@ CLAIMS['C02'] = dict(cat='model_checking', ref='DESIGN.md §4 C02',
     note='iterator stack replaced by the guarded fixed-capacity hook; write-only key_buffer stubbed; symbolic bounds on trees deeper than two inode levels are out of reach (stated in evidence); '
          'uint64 keys only at tree level. Two defects found this way were repaired (known_findings.txt).')
 
+CLAIMS['C16'] = dict(cat='model_checking', ref='DESIGN.md §4 C16',
+    text='The node-level and tree-level queries of C01/C02 are regenerated from the SSE4.1, assertion-enabled, SSE4.1+assertions and statistics-free builds of the real headers; SAT decides for all inputs '
+         'within the bounds that each configuration satisfies the same oracle (hence identical results) and that no library assertion is reachable on valid use.',
+    note='equality of configurations is derived through the common oracle, not by a product program; spin-wait variants are indistinguishable single-threaded; OLC-specific assertions are covered under C14/C01-olc where built.')
+
 NOT_APPLICABLE = {
 }
 
